@@ -827,6 +827,29 @@ func cmdReplay(args []string) int {
 		fmt.Println("this record came from a driver-side comparison; re-run the check instead: vcheck run", rec.Property)
 		return 2
 	}
+	if strings.Contains(rec.Params, "expect=") {
+		// cross-configuration record: recompute the reference digest from the current tree first
+		ru := u
+		ru.Params = ""
+		rbin, err := buildUnit(work, ru, "default")
+		if err != nil {
+			fmt.Println("HARNESS-BUILD-FAILED", err)
+			return 2
+		}
+		rout := filepath.Join(work, "replay_ref.json")
+		if _, _, err := runWorker(rbin, ru, "default", rec.Tier, rec.Seed, 0, 1, rec.Index, 0, rout); err != nil {
+			fmt.Println("HARNESS-ERROR", err)
+			return 2
+		}
+		tb, _ := ioutil.ReadFile(rout + ".transcript")
+		var idx int64
+		var dig string
+		if n, _ := fmt.Sscanf(string(tb), "%d %s", &idx, &dig); n != 2 {
+			fmt.Println("HARNESS-ERROR no reference digest")
+			return 2
+		}
+		u.Params = "expect=" + dig + ",key=" + rec.Key
+	}
 	bin, err := buildUnit(work, u, rec.Config)
 	if err != nil {
 		fmt.Println("HARNESS-BUILD-FAILED", err)
